@@ -11,6 +11,30 @@ CHECKS = {
                 text="Kernel-checked theorem C01_sound: for every table passing the decidable certificates gramWF/certA/certT, every input and fuel, an accepting run's reductions are a rightmost derivation of exactly the input. The certificates are evaluated by the compiled Lean model on the implementation's own LR0Closure and GTable for every generated grammar, so for each grammar explored the claim about all inputs rests on the theorem.",
                 note="Trusted: Lean kernel; compiled ymodel evaluates the certificates; Go harness dump; the driver model is tied to the generated code by execution of compiled parsers (C08 check). Axioms: propext, Quot.sound, Classical.choice at most.",
                 ref="DESIGN.md §5 C01"),
+    "C02": dict(cat="proof", technique="Lean 4 theorems (completeness simulation over lookahead-annotated items; Bool-certificate bridges) + completeness certificate certC evaluated on the implementation's table + Earley oracle",
+                text="Kernel-checked: the completeness simulation Y.sim (a conflict-free, closed, lookahead-annotated item system drives the parser through every derivation) and the bridges from Bool checks to its hypotheses (LA_in_table, firstOf_sets). Per grammar: LALR(1)-ness is decided by the verified lookahead oracle on the implementation's automaton, certC is evaluated on the implementation's GTable, and every Earley-recognised sentence up to a bound plus sampled sentences must be accepted by the driver model on that table (and no non-sentence).",
+                note="Partial: the glue from certC to the hypotheses of Y.sim is validated per grammar rather than stated as one theorem. Trusted: Lean kernel, ymodel, harness, Earley oracle in cfg.py.",
+                ref="DESIGN.md §5 C02"),
+    "C03": dict(cat="proof", technique="Lean 4 theorem LALR propagation fixpoint = union over canonical LR(1) states with the same core (LA_iff) used as verified oracle for the implementation's DeRemer-Pennello output",
+                text="Kernel-checked LA_iff: the least solution of the LALR(1) propagation rules over the LR(0) automaton equals the union of the lookaheads of the canonical LR(1) states reached by the state's access paths; LA_in_table: a table passing the Bool closure check contains every such fact. Per grammar the implementation's (state, rule) lookahead sets are compared as sets with the fixpoint computed on the implementation's own automaton, and its conflict warnings (cell level) with the unresolved conflicts predicted from those lookaheads.",
+                note="The DeRemer-Pennello algorithm itself is validated per grammar, not verified for all grammars. Trusted: Lean kernel, ymodel, harness hook VerifLookaheads.",
+                ref="DESIGN.md §5 C03"),
+    "C04": dict(cat="proof", technique="Lean 4 theorems about the Go decision functions translated to Lean on every run (go/ast translator) + specification-function recomputation of every two-way conflict cell + precedence-climbing reference on operator grammars",
+                text="ResolveConflict and UseDefaultResolveConflict are translated statement by statement from LALR/Table.go into Gen/Resolve.lean on every run; the precedence/associativity theorems (higher level wins, %left reduces, %right shifts, %nonassoc errors, default shift, reduce/reduce picks the earlier rule) are proved about that generated text, so an edit of the functions is re-proved or breaks the build. Every two-way conflict cell of every generated grammar is recomputed from the property's rule; whole expressions of random operator tables are grouped against a precedence-climbing reference.",
+                note="Reduce/reduce cells where both rules carry a precedence are treated as unspecified. End-to-end grouping is by execution. Trusted: translator (fails closed), Lean kernel, harness.",
+                ref="DESIGN.md §5 C04"),
+    "C05": dict(cat="proof", technique="Lean 4 theorems on the row-displacement placement invariant (first-fit, non-overlap, cell recovery) + packed-lookup certificate on the implementation's five arrays + differential run of PackTable/UnPackTable on random matrices",
+                text="Kernel-checked abstract core of row displacement: first-fit finds a free displacement, placing preserves the non-overlap invariant, and under the invariant every cell of every placed row is recovered through owner check + value. Per grammar every (state, symbol) cell is looked up through the implementation's packed arrays with the generated Action logic and compared with GTable; random matrices go through the real PackTable/UnPackTable; the Lean mirror of split+pack must reproduce the implementation's arrays byte for byte.",
+                note="Partial: the refinement from the array-based mirror to the abstract placement view is by correspondence, not yet a theorem. Trusted: Lean kernel, ymodel, harness.",
+                ref="DESIGN.md §5 C05"),
+    "C06": dict(cat="proof", technique="Lean 4 theorem (never crash, tokens requested = shifted + 1) over the driver model on certified tables + valid-item/viable-prefix theorems + Earley viable-prefix oracle",
+                text="Kernel-checked C06_safe: on every certified table, for every input and fuel the driver ends in accept, syntaxError or outOfFuel, never in a crash (no out-of-range state, symbol, slice or goto), and at a syntax error exactly shifted+1 tokens were requested. St0_valid/valid_viable: items of canonical LR(0) states are valid, hence consumed input is a viable prefix. Per grammar: all strings up to a bound and mutated sentences through the driver on the implementation's table; for conflict-free grammars the error must come exactly at the first token that cannot continue a sentence (Earley oracle).",
+                note="Partial: termination on every conflict-free grammar is covered by step-bounded execution only; the per-backend error channel is checked by execution of the generated parsers (C08 runs).",
+                ref="DESIGN.md §5 C06"),
+    "C09": dict(cat="proof", technique="Lean 4 certificate theorems on the implementation's automaton + byte-identical executable Lean mirror of the worklist construction + independent canonical-collection reference",
+                text="The implementation's LR0Closure is compared, as a set of item sets with transitions, with an independently computed canonical LR(0) collection (no duplicates, none missing or extra, state 0 = closure of the start item, items sorted); the Lean mirror of ComputeIClosure/ComputeAllGoto must reproduce states and gotos with the implementation's numbering; certA (backward consistency, goto completeness, justification) passes on every automaton.",
+                note="Theorems for this property are being extended (closure correctness of the mirror).",
+                ref="DESIGN.md §5 C09"),
 }
 
 NOT_YET = {
